@@ -348,3 +348,30 @@ impl<'a> std::io::Read for CutReader<'a> {
         Ok(())
     }
 }
+
+/// A reader whose `read` hands out at most `chunk` bytes per call (a pipe or socket), on top of
+/// `CutReader`.  `read_exact` is the one of `CutReader`.
+pub struct ShortReader<'a> {
+    pub inner: CutReader<'a>,
+    pub chunk: usize,
+}
+
+impl<'a> std::io::Read for ShortReader<'a> {
+    fn read(&mut self, buf: &mut [u8]) -> std::io::Result<usize> {
+        let mut n = buf.len();
+        if n > self.chunk {
+            n = self.chunk;
+        }
+        if self.inner.pos + n > self.inner.data.len() {
+            n = self.inner.data.len() - self.inner.pos;
+        }
+        match self.inner.read_exact(&mut buf[..n]) {
+            Ok(()) => Ok(n),
+            Err(e) => Err(e),
+        }
+    }
+
+    fn read_exact(&mut self, buf: &mut [u8]) -> std::io::Result<()> {
+        self.inner.read_exact(buf)
+    }
+}
